@@ -190,7 +190,7 @@ def gen_spec(ctx, sh, depth=0):
     if ctx.on('coalesce'):
         opts += ['coalesce'] * 2
     if ctx.on('scope'):
-        opts += ['scope'] * 2
+        opts += ['scope'] * 2 + ['accum']
     if ctx.on('globals'):
         opts += ['globals']
     if ctx.on('fill'):
@@ -359,16 +359,38 @@ def gen_spec(ctx, sh, depth=0):
         if rng.random() < 0.5:
             return ['tuple', [binder, ['dict', [['body', body], ['read', reader]]]]], None
         return ['tuple', [binder, body, reader]], None
+    if c == 'accum':
+        # a mutable literal bound with S() and filled through the scope: every evaluation starts from a
+        # fresh copy of the literal (what another call, or an earlier one, put there never shows)
+        if rng.random() < 0.5:
+            return ['tuple', [['T', 'S', [['(', [[], {'acc': {'t': 'list', 'v': []}}]]]],
+                              ['T', 'S', [['.', 'acc'], ['.', 'append'], ['(', [[{'t': 'spec', 'v': ['T', 'T', []]}], {}]]]],
+                              ['T', 'S', [['.', 'acc']]]]], None
+        lit = {'t': 'dict', 'v': [] if rng.random() < 0.7 else [['z', 0]]}
+        return ['tuple', [['T', 'S', [['(', [[], {'acc': lit}]]]],
+                          ['T', 'S', [['(', [[], {'before': {'t': 'spec', 'v': [
+                              'Coalesce', [['T', 'S', [['.', 'acc'], ['[', 'k']]]], {'default': 'unset'}]}}]]]],
+                          ['T', 'A', [['.', 'acc'], ['[', 'k']]],
+                          ['dict', [['before', ['T', 'S', [['.', 'before']]]], ['acc', ['T', 'S', [['.', 'acc']]]]]]]], None
     if c == 'globals':
         name = rng.choice(['g1', 'g2'])
         return ['tuple', [['T', 'A', [['.', 'globals'], ['.', name]]],
                           G(sh)[0],
                           ['T', 'S', [['.', 'globals'], ['.', name]]]]], sh
     if c == 'vars':
-        return ['tuple', [['T', 'S', [['(', [[], {'vs': {'t': 'spec', 'v': ['Vars', [], [['cnt', 0]]]}}]]]],
+        # Vars with keyword defaults / bare / with a base mapping; 'before' reads a variable that this
+        # evaluation has not assigned yet (a value left behind by an earlier evaluation would show)
+        form = rng.choice(['defaults', 'defaults', 'bare', 'base'])
+        vrec = {'defaults': ['Vars', [], [['cnt', 0]]], 'bare': ['Vars', [], []],
+                'base': ['Vars', [['cnt', 0]], []]}[form]
+        reads = [['item', ['T', 'S', [['.', 'vs'], ['.', 'item']]]], ['before', ['T', 'S', [['.', 'before']]]]]
+        if form != 'bare':
+            reads.insert(0, ['cnt', ['T', 'S', [['.', 'vs'], ['.', 'cnt']]]])
+        return ['tuple', [['T', 'S', [['(', [[], {'vs': {'t': 'spec', 'v': vrec}}]]]],
+                          ['T', 'S', [['(', [[], {'before': {'t': 'spec', 'v': [
+                              'Coalesce', [['T', 'S', [['.', 'vs'], ['.', 'item']]]], {'default': 'unset'}]}}]]]],
                           ['T', 'A', [['.', 'vs'], ['.', 'item']]],
-                          ['dict', [['cnt', ['T', 'S', [['.', 'vs'], ['.', 'cnt']]]],
-                                    ['item', ['T', 'S', [['.', 'vs'], ['.', 'item']]]]]]]], None
+                          ['dict', reads]]], None
     if c == 'fill':
         items = [{'t': 'spec', 'v': G(sh)[0]} if rng.random() < 0.6 else scalar(rng)
                  for _ in range(rng.randint(1, 3))]
